@@ -300,6 +300,7 @@ pub fn execute(
     // MV_SCHED_LOG: the schedule so far is kept in a file, so that the steps that led to a crash of the
     // scenario process are known
     let sched_log = std::env::var("MV_SCHED_LOG").ok();
+    let mut empty_stuck = 0usize;
     let mut logged = 0usize;
     loop {
         if let Some(p) = &sched_log {
@@ -544,12 +545,22 @@ pub fn execute(
                         }
                         eprintln!("  co map: {:?}", g.co);
                     }
-                    let who = g
+                    let who: Vec<String> = g
                         .actors
                         .iter()
                         .filter(|a| !matches!(a.st, ASt::Finished(_)) && !(a.kernel_of.is_some() && a.kactive == 0))
                         .map(|a| a.name.clone())
                         .collect();
+                    if who.is_empty() {
+                        // everybody has finished in the meantime: not a deadlock (the next round normally sees AllFinished)
+                        drop(g);
+                        empty_stuck += 1;
+                        if empty_stuck > 20 {
+                            end = End::Finished;
+                            break;
+                        }
+                        continue;
+                    }
                     end = End::Stuck(who);
                     break;
                 }
